@@ -9,7 +9,9 @@ import (
 	"encoding/binary"
 	"flag"
 	"fmt"
+	"runtime"
 	"strings"
+	"sync"
 
 	"github.com/zeebo/xxh3"
 
@@ -468,48 +470,49 @@ func storageCases(o *vu.Out, r *vu.Rng, n int, seed uint64) {
 			damagedCase(o, r, desc, orig, origChunks, f, -1, "store/damage")
 		}
 	}
-	// 3. item streams crossing the half-chunk threshold (long runs are printed run-length encoded)
-	for i := 0; i < n/3000+2; i++ {
-		var ops []sop
-		ops = append(ops, sop{kind: "readall", magic: magicA}, sop{kind: "start", magic: magicA})
-		var items [][]byte
-		total := 0
-		for total < data_model.ChunkSize/2+100000*r.Intn(2) {
-			l := int(r.Pick(1, 50000, 200000, data_model.ChunkSize/2-1-int64(total%7), data_model.ChunkSize/2, data_model.ChunkSize/2+1, 300000))
-			if i == 0 && len(items) == 0 {
-				l = data_model.ChunkSize/2 - 1
-			}
-			it := bytes.Repeat([]byte{byte(65 + len(items))}, l)
-			it[len(it)-1] = byte(r.Intn(256))
-			items = append(items, it)
-			total += l
-			ops = append(ops, sop{kind: "item", item: it})
+}
+
+// item streams crossing the half-chunk threshold (long runs are printed run-length encoded); one call = one stream
+func bigStoreCase(o *vu.Out, r *vu.Rng, i int, seed uint64) {
+	var ops []sop
+	ops = append(ops, sop{kind: "readall", magic: magicA}, sop{kind: "start", magic: magicA})
+	var items [][]byte
+	total := 0
+	for total < data_model.ChunkSize/2+100000*r.Intn(2) {
+		l := int(r.Pick(1, 50000, 200000, data_model.ChunkSize/2-1-int64(total%7), data_model.ChunkSize/2, data_model.ChunkSize/2+1, 300000))
+		if i == 0 && len(items) == 0 {
+			l = data_model.ChunkSize/2 - 1
 		}
-		if r.Chance(30) { // an oversized chunk: FinishItem must report it
-			ops = append(ops, sop{kind: "item", item: bytes.Repeat([]byte{9}, data_model.ChunkSize+1)})
-		} else {
-			ops = append(ops, sop{kind: "finish"})
+		it := bytes.Repeat([]byte{byte(65 + len(items))}, l)
+		it[len(it)-1] = byte(r.Intn(256))
+		items = append(items, it)
+		total += l
+		ops = append(ops, sop{kind: "item", item: it})
+	}
+	if r.Chance(30) { // an oversized chunk: FinishItem must report it
+		ops = append(ops, sop{kind: "item", item: bytes.Repeat([]byte{9}, data_model.ChunkSize+1)})
+	} else {
+		ops = append(ops, sop{kind: "finish"})
+	}
+	run := runStore(nil, ops)
+	desc := fmt.Sprintf("store-big seed=%d i=%d items=%d total=%d filelen=%d", seed, i, len(items), total, len(run.file))
+	line := o.Case(desc, run.term(nil), true, "store/threshold")
+	if ops[len(ops)-1].kind == "finish" {
+		run2 := runStore(run.file, []sop{{kind: "readall", magic: magicA}})
+		o.Case(desc+" reread", run2.term(run.file), true, "store/threshold-reread")
+		if run2.readErr[0] != nil || !bytes.Equal(bytes.Join(run2.readChunks[0], nil), bytes.Join(items, nil)) {
+			o.Fail("chunks_roundtrip", line, desc)
 		}
-		run := runStore(nil, ops)
-		desc := fmt.Sprintf("store-big seed=%d i=%d items=%d total=%d filelen=%d", seed, i, len(items), total, len(run.file))
-		line := o.Case(desc, run.term(nil), true, "store/threshold")
-		if ops[len(ops)-1].kind == "finish" {
-			run2 := runStore(run.file, []sop{{kind: "readall", magic: magicA}})
-			o.Case(desc+" reread", run2.term(run.file), true, "store/threshold-reread")
-			if run2.readErr[0] != nil || !bytes.Equal(bytes.Join(run2.readChunks[0], nil), bytes.Join(items, nil)) {
-				o.Fail("chunks_roundtrip", line, desc)
+		// every chunk is a concatenation of whole items
+		idx := 0
+		for _, c := range run2.readChunks[0] {
+			rest := c
+			for len(rest) > 0 && idx < len(items) && bytes.HasPrefix(rest, items[idx]) {
+				rest = rest[len(items[idx]):]
+				idx++
 			}
-			// every chunk is a concatenation of whole items
-			idx := 0
-			for _, c := range run2.readChunks[0] {
-				rest := c
-				for len(rest) > 0 && idx < len(items) && bytes.HasPrefix(rest, items[idx]) {
-					rest = rest[len(items[idx]):]
-					idx++
-				}
-				if len(rest) != 0 {
-					o.Fail("chunk_is_whole_items", line, desc)
-				}
+			if len(rest) != 0 {
+				o.Fail("chunk_is_whole_items", line, desc)
 			}
 		}
 	}
@@ -908,6 +911,131 @@ func first(b []byte) int {
 	return int(b[0])
 }
 
+
+// ---------- big files: damage of the size field must never panic and must yield the good prefix ----------
+
+func readAllNoPanic(fp []byte) (chunks [][]byte, err error, panicked any) {
+	defer func() {
+		if r := recover(); r != nil {
+			panicked = r
+		}
+	}()
+	cp := append([]byte{}, fp...)
+	st := data_model.NewChunkedStorage2Slice(&cp)
+	cs, _, e := readAll(st, magicA)
+	return cs, e, nil
+}
+
+func bigSizeFieldCases(o *vu.Out, r *vu.Rng, seed uint64) {
+	// 4 chunks of exactly ChunkSize/2 bytes and a short tail: the file is larger than the 1 MiB scratch buffer
+	var items [][]byte
+	for k := 0; k < 4; k++ {
+		it := bytes.Repeat([]byte{byte(70 + k)}, data_model.ChunkSize/2)
+		it[len(it)-1] = byte(r.Intn(256))
+		items = append(items, it)
+	}
+	items = append(items, []byte{1, 2, 3, byte(r.Intn(256))})
+	orig := writeFile(magicA, [][][]byte{items})
+	ends := chunkEnds(orig)
+	origChunks, err0, p0 := readAllNoPanic(orig)
+	anchor := o.Case(fmt.Sprintf("bigfile seed=%d len=%d chunks=%d intact", seed, len(orig), len(ends)), "CItem [] 1 1 [0;0;0;0;1;0;0;0;1;0;0;0]", true, "store/bigfile")
+	if p0 != nil || err0 != nil || len(origChunks) != 5 {
+		o.Fail("chunks_roundtrip", anchor, fmt.Sprintf("bigfile seed=%d intact file does not reload: err=%v panic=%v chunks=%d", seed, err0, p0, len(origChunks)))
+		return
+	}
+	for k := 0; k < 4; k++ {
+		start := 0
+		if k > 0 {
+			start = ends[k-1]
+		}
+		for bit := 0; bit < 32; bit++ {
+			f := append([]byte{}, orig...)
+			f[start+4+bit/8] ^= 1 << (bit % 8)
+			desc := fmt.Sprintf("bigfile-sizeflip seed=%d len=%d chunk=%d sizebit=%d", seed, len(orig), k, bit)
+			got, err, p := readAllNoPanic(f)
+			line := anchor
+			if p == nil && k == 0 && bit == 20 { // one of them also goes through the model
+				run := runStore(f, []sop{{kind: "readall", magic: magicA}})
+				line = o.Case(desc, run.term(f), true, "store/bigfile-sizeflip")
+			}
+			if p != nil {
+				o.Fail("damaged_size_field_never_panics_or_misreads", line, desc+fmt.Sprintf(" panic=%v", p))
+				continue
+			}
+			if err == nil || len(got) != k || !isPrefix(got, origChunks) {
+				o.Fail("damaged_size_field_never_panics_or_misreads", line, desc+fmt.Sprintf(" err=%v chunks=%d", err, len(got)))
+			}
+		}
+	}
+}
+
+// ---------- F-C21b: GetValue between the two lock phases of AddValues ----------
+
+// raceWitness forces the schedule "AddValues collects its eviction candidates under RLock; GetValue refreshes the
+// accessTS of one candidate while AddValues holds no lock on mu (it is sorting); AddValues removes the candidate with
+// the accessTS it remembered".  The helper goroutine finds the window by probing the two mutexes.
+func raceWitness(o *vu.Out, failRace bool) {
+	const n = 20000
+	size := pcache.VerifElementSizeMem("k00000")
+	outcome := "not-reproduced"
+	detail := ""
+	for trial := 0; trial < 30 && outcome != "reproduced"; trial++ {
+		var fp []byte
+		c, _ := pcache.LoadMappingsCacheSlice(&fp, int64(n)*size)
+		victim := "k00000"
+		c.AddValues(50, []pcache.MappingPair{{Str: victim, Value: 7}})
+		var pairs []pcache.MappingPair
+		for i := 1; i < n; i++ {
+			pairs = append(pairs, pcache.MappingPair{Str: fmt.Sprintf("k%05d", i), Value: int32(i + 10)})
+		}
+		c.AddValues(100, pairs)
+		var fresh []pcache.MappingPair
+		for i := 0; i < n*3/4; i++ {
+			fresh = append(fresh, pcache.MappingPair{Str: fmt.Sprintf("n%05d", i), Value: int32(i + 10)})
+		}
+		var wg sync.WaitGroup
+		wg.Add(1)
+		go func() {
+			defer wg.Done()
+			spin := func(cond func() bool) bool {
+				for i := 0; i < 50000000; i++ {
+					if cond() {
+						return true
+					}
+					if i%64 == 63 {
+						runtime.Gosched()
+					}
+				}
+				return false
+			}
+			if !spin(c.VerifModifyLocked) { // AddValues has started
+				return
+			}
+			if !spin(func() bool { return !c.VerifMuFree() }) { // it reads the map under RLock
+				return
+			}
+			if !spin(c.VerifMuFree) { // RUnlock done: it sorts the candidates, mu is free
+				return
+			}
+			c.GetValue(90, victim)
+		}()
+		runtime.Gosched()
+		c.AddValues(200, fresh)
+		wg.Wait()
+		d, ss, st := c.VerifDump()
+		es, et := exactSums(d)
+		if st != et || ss != es {
+			outcome = "reproduced"
+			detail = fmt.Sprintf("race trial=%d entries=%d sumTS=%d exact=%d sumSize=%d exact=%d", trial, len(d), st, et, ss, es)
+		}
+	}
+	o.Finding("F-C21b", outcome)
+	if outcome == "reproduced" && failRace {
+		line := o.Case(detail, "CItem [] 1 1 [0;0;0;0;1;0;0;0;1;0;0;0]", true, "race")
+		o.Fail("accounting_exact_concurrent", line, detail)
+	}
+}
+
 // the recorded finding F-C21: one string twice in one AddValues batch
 func findingWitness(o *vu.Out) {
 	var fp []byte
@@ -926,17 +1054,28 @@ func main() {
 	seed := flag.Uint64("seed", 1, "")
 	n := flag.Int("n", 3000, "")
 	out := flag.String("out", "", "")
+	failRace := flag.Bool("failrace", false, "report the reproduced AddValues/GetValue race (F-C21b) as an oracle failure")
 	flag.Parse()
 	r := vu.NewRng(*seed)
 	o := vu.NewOut(*out)
 	defer o.Close()
 	findingWitness(o)
+	raceWitness(o, *failRace)
+	// the few large cases are spread over the case stream so that they land in different correspondence shards
+	bigStoreCase(o, r, 0, *seed)
 	storageCases(o, r, *n, *seed)
+	bigStoreCase(o, r, 1, *seed)
 	for i := 0; i < *n/6+1; i++ {
 		cacheHistory(o, *seed, i, false)
+		if i == *n/12 {
+			for j := 0; j < *n/3000+1; j++ {
+				cacheHistory(o, *seed, 1000000+j, true)
+			}
+		}
 	}
-	for i := 0; i < *n/3000+1; i++ {
-		cacheHistory(o, *seed, 1000000+i, true)
+	for i := 2; i < *n/3000+2; i++ {
+		bigStoreCase(o, r, i, *seed)
 	}
 	loadCases(o, r, *n/10+1, *seed)
+	bigSizeFieldCases(o, r, *seed)
 }
